@@ -1,0 +1,56 @@
+//go:build verif
+
+package proxy
+
+// Verification export hooks for property C11 (player registry) — /verif/harness/cmd/c11.
+// Thin package-internal wrappers only: every function returns the unexported function it names.
+// Compiled only with `-tags verif`.
+
+import (
+	"go.minekube.com/gate/pkg/edition/java/netmc"
+	"go.minekube.com/gate/pkg/edition/java/profile"
+	"go.minekube.com/gate/pkg/edition/java/proto/packet"
+)
+
+// VerifC11Player lets the harness hold *connectedPlayer values (opaque outside the package).
+type VerifC11Player = connectedPlayer
+
+// verifC11Deps is the sessionHandlerDeps literal of Proxy.HandleConn.
+func verifC11Deps(p *Proxy) *sessionHandlerDeps {
+	return &sessionHandlerDeps{
+		proxy:          p,
+		registrar:      p,
+		configProvider: p,
+		eventMgr:       p.event,
+		authenticator:  p.authenticator,
+		loginsQuota:    p.loginsQuota,
+	}
+}
+
+// VerifC11NewPlayer = newConnectedPlayer over a caller-supplied connection.
+func VerifC11NewPlayer(p *Proxy, conn netmc.MinecraftConn, prof *profile.GameProfile, onlineMode bool) *VerifC11Player {
+	return newConnectedPlayer(conn, prof, nil, packet.LoginHandshakeIntent, onlineMode, nil, verifC11Deps(p))
+}
+
+// VerifC11InitialConnectHandler = newInitialConnectSessionHandler (its Disconnected runs teardown).
+func VerifC11InitialConnectHandler(pl *VerifC11Player) netmc.SessionHandler {
+	return newInitialConnectSessionHandler(pl)
+}
+
+// VerifC11AuthHandler = newAuthSessionHandler over a caller-supplied connection;
+// activating it runs the real login flow (authSessionHandler.Activated).
+func VerifC11AuthHandler(p *Proxy, conn netmc.MinecraftConn, prof *profile.GameProfile, onlineMode bool) netmc.SessionHandler {
+	return newAuthSessionHandler(
+		newLoginInboundConn(newInitialInbound(conn, nil, packet.LoginHandshakeIntent)),
+		prof, onlineMode, "", verifC11Deps(p))
+}
+
+// VerifC11AuthPlayer returns the connectedPlayer an auth session handler created in Activated (may be nil).
+func VerifC11AuthPlayer(h netmc.SessionHandler) *VerifC11Player {
+	return h.(*authSessionHandler).connectedPlayer
+}
+
+func VerifC11CanRegister(p *Proxy, pl *VerifC11Player) bool { return p.canRegisterConnection(pl) }
+func VerifC11Register(p *Proxy, pl *VerifC11Player) bool    { return p.registerConnection(pl) }
+func VerifC11Unregister(p *Proxy, pl *VerifC11Player) bool  { return p.unregisterConnection(pl) }
+func VerifC11Teardown(pl *VerifC11Player)                   { pl.teardown() }
